@@ -184,6 +184,12 @@ def step (s : State) (toks : List String) : State × String :=
     match s.cur with
     | some srv => ({ s.commit (closeOn s.sha s.dir srv) [] with cur := none }, "ok")
     | none => (s, "bad-op")
+  | ["crash"] =>
+    -- the server process dies: no `closeDatabase` (a temporary-directory server's file stays), the directory is
+    -- what the calls made of it
+    match s.cur with
+    | some _ => ({ s with cur := none }, "ok")
+    | none => (s, "bad-op")
   | ["mvold", i] =>
     -- what an older version of onet would have left: the server's file under the legacy name
     match s.cur, i.toNat?.bind s.pub with
